@@ -194,9 +194,15 @@ class G:
             hi = r.randint(lo + 1, w)
             return ["sl", e, lo, hi]
         if k == "cat":
-            return ["cat", [self.E(readable, depth - 1, maxw=16) for _ in range(r.randint(1, 3))]]
+            cat = ["cat", [self.E(readable, depth - 1, maxw=16) for _ in range(r.randint(1, 3))]]
+            if r.random() < 0.5:
+                return self.edge_slice(cat, [mt(x, self.sigs)[0] for x in cat[1]])
+            return cat
         if k == "rep":
-            return ["rep", self.E(readable, depth - 1, maxw=8), r.randint(1, 3)]
+            rep = ["rep", self.E(readable, depth - 1, maxw=8), r.randint(1, 3)]
+            if r.random() < 0.4:
+                return self.edge_slice(rep, [mt(rep[1], self.sigs)[0]] * rep[2])
+            return rep
         if k == "cmp":
             return ["b", r.choice(CMP), self.E(readable, depth - 1), self.E(readable, depth - 1)]
         if k == "bw":
@@ -229,6 +235,25 @@ class G:
                 ch.append(e)
             return ["arr", ch, self.key(readable, len(ch))]
         raise AssertionError
+
+    def edge_slice(self, e, widths):
+        """slice of a Cat / Replicate whose bounds sit on or next to the element boundaries (the slice lowerer's corner cases)."""
+        r = self.rng
+        tot = sum(widths)
+        if tot < 2:
+            return e
+        edges = [0]
+        for w in widths:
+            edges.append(edges[-1] + w)
+        def near():
+            return min(max(r.choice(edges) + r.choice([-1, 0, 0, 1]), 0), tot)
+        for _ in range(8):
+            lo, hi = near(), near()
+            if lo > hi:
+                lo, hi = hi, lo
+            if lo < hi:
+                return ["sl", e, lo, hi]
+        return e
 
     def key(self, readable, n):
         e = self.E(readable, 0, True, maxw=3)
@@ -355,9 +380,14 @@ class G:
                       self.stmts(targets, readable, depth - 1, r.randint(0, 2))]
                 out.append(st)
             else:
-                test = self.E(readable, 1, True, maxw=4)
-                tw = mt(test, self.sigs)[0]
-                keys = sorted({r.getrandbits(tw) if r.random() < 0.7 else r.choice([0, 1, (1 << tw) - 1]) for _ in range(r.randint(1, 4))})
+                test = self.E(readable, 1, r.random() < 0.7, maxw=4)
+                tw, tsg = mt(test, self.sigs)
+                if tsg:
+                    # signed test: items of both signs inside the range of the test
+                    lo_, hi_ = -(1 << (tw - 1)), (1 << (tw - 1)) - 1
+                    keys = sorted({r.randint(lo_, hi_) if r.random() < 0.7 else r.choice([lo_, -1, 0, hi_]) for _ in range(r.randint(1, 4))})
+                else:
+                    keys = sorted({r.getrandbits(tw) if r.random() < 0.7 else r.choice([0, 1, (1 << tw) - 1]) for _ in range(r.randint(1, 4))})
                 r.shuffle(keys)
                 cases = [[kk, self.stmts(targets, readable, depth - 1, r.randint(1, 2))] for kk in keys]
                 default = self.stmts(targets, readable, depth - 1, 1) if r.random() < 0.6 else None
